@@ -36,7 +36,9 @@ class PathDomain(EvDomain):
         if base == 'readdir': return Sym(f'ent@{n.id}')
         if base == 'empty' and on in ('m_dir', 'm_oldDir', 'm_path'):
             v = self.atom(on + '.empty'); return v if v is not None else Unknown((on + '.empty', n.id))
-        if q == 'tulz::Path::toString' : return Sym(f'str:{on}')
+        if q == 'tulz::Path::toString':
+            if isinstance(ov, Sym) and ov.name.startswith('cwd@'): return Sym(ov.name + '.str')         # the text of the directory getWorkingDirectory() returned
+            return Sym(f'str:{on}')
         if base == 'empty' and isinstance(ov, Sym) and ov.name.startswith('str:'):
             v = self.atom(ov.name[4:] + '.empty'); return v if v is not None else Unknown((ov.name, n.id))
         return super().call_result(ex, n, q, base, on, ov, vals, st, fr)
